@@ -10,6 +10,7 @@ LEVEL = "exploration"
 SHARDS = {"quick": 4, "thorough": 16}
 TIMEOUT = {"quick": 900, "thorough": 2400}
 BUDGET = 200_000
+MIN_EVALUATIONS = {"quick": 20000, "thorough": 20000}  # fewer oracle evaluations than this means the workload collapsed: inconclusive
 RULE = ("for every elementary/string/bit-string type and generated Array/Struct/StructTag/FixedSizeString/n_bytes composition: "
         "encode(out-of-domain value) over the classes {range+-1, 2^64, None, wrong python type, wrong container shape, unencodable "
         "character, over-long for the prefix, too few elements, wrong bit count, missing key} must raise DataError; decode of every "
